@@ -19,8 +19,10 @@ pub mod c11;
 pub mod c12;
 pub mod c13;
 pub mod c14;
+pub mod c15;
 pub mod c16;
 pub mod c17;
+pub mod c18;
 pub mod c19;
 pub mod c20;
 
@@ -120,6 +122,12 @@ pub fn all() -> Vec<Check> {
             sweeps: None,
         },
         Check {
+            id: "C15",
+            props: c15::props,
+            describe: c15::describe,
+            sweeps: None,
+        },
+        Check {
             id: "C16",
             props: c16::props,
             describe: c16::describe,
@@ -130,6 +138,12 @@ pub fn all() -> Vec<Check> {
             props: c17::props,
             describe: c17::describe,
             sweeps: Some(c17::sweeps),
+        },
+        Check {
+            id: "C18",
+            props: c18::props,
+            describe: c18::describe,
+            sweeps: Some(c18::sweeps),
         },
         Check {
         id: "C19",
